@@ -20,6 +20,7 @@ THEOREMS = [
     "C17_bad_page_isolated", "C17_bad_page_isolated_tree",
     "C17_pages_written", "C17_files_copied_beside",
     "C17_copy_subdir_copied", "C17_copy_subdir_every_page", "C17_copy_subdirs_spec", "C17_copy_subdir_skip",
+    "C17_nothing_else_copied",
 ]
 
 MD_NAMES = ["a.md", "b.md", "c.md", "B.md", "z.md", "intro.md"]
